@@ -135,7 +135,7 @@ class Bench(object):
         try:
             return ('ok', thunk())
         except Raised as ex:
-            if ex.name in GAP_ERRORS:
+            if ex.name in GAP_ERRORS and not ex.sure:
                 raise AnalysisError('%s: evaluation stopped with %s (%s)' % (what, ex.name, ex.detail))
             return ('raise', ex.name)
         except Diverged:
